@@ -399,6 +399,8 @@ func (w *World) genKind(t *rapid.T, kind string, p *Profile) Op {
 		}
 		sort.Strings(ids)
 		op.App = pick(t, "app", ids)
+	case OpScheduleRace:
+		op.Race = rapid.SampledFrom([]string{"release-ask", "release-ask", "remove-app", "remove-node", "drain-node", "release-placeholder"}).Draw(t, "race")
 	case OpReload:
 		if p.Reloads && w.ReloadGen != nil {
 			op.Conf = w.ReloadGen(t, w)
